@@ -692,7 +692,7 @@ def ward_quick(G, feature, verbose=False):
 
             ml = linc[j]
             if np.sum(K.edges[ml, 1] == i) > 0:
-                m = ml[int(np.flatnonzero(K.edges[ml, 1] == i))]
+                m = ml[int(np.flatnonzero(K.edges[ml, 1] == i)[0])]
                 K.edges[m] = -1
                 K.weights[m] = np.inf
                 linc[j].remove(m)
@@ -954,7 +954,7 @@ def ward(G, feature, verbose=False):
 
         ml = linc[j]
         if np.sum(K.edges[ml, 1] == i) > 0:
-            m = ml[int(np.flatnonzero(K.edges[ml, 1] == i))]
+            m = ml[int(np.flatnonzero(K.edges[ml, 1] == i)[0])]
             K.edges[m] = -1
             K.weights[m] = np.inf
             linc[j].remove(m)
